@@ -22,9 +22,9 @@ the order of the pairs is irrelevant; exactly when the loop panics (a non-identi
 final exponentiation of the joint loop = product of the individual pairings; the two-pair and the slice
 helpers are these products; the slice helper panics when `q` is shorter than `p`.
 
-WHAT IS NOT PROVED: the clause "for P_i=[a_i]g1, Q_i=[b_i]g2 the result is e(g1,g2)^(Σ a_i b_i)" needs
-the BILINEARITY of the pairing, which is not carried by any theorem of this development (it is exercised
-by the differential / oracle test harness instead).  Given bilinearity it would follow at once from
+WHAT IS NOT PROVED IN THIS FILE (update: PROVED in PP/Props/C03Bilinear.lean `multiProduct_exponent` and PP/Props/C03BilinearZ.lean): the clause "for P_i=[a_i]g1, Q_i=[b_i]g2 the result is e(g1,g2)^(Σ a_i b_i)" needs
+the BILINEARITY of the pairing, which is proved in PP/Props/C03Bilinear.lean (and exercised
+by the differential / oracle test harness as well).  Given bilinearity it would follow at once from
 `pairingMultiProduct_eq_prod`.  Two concrete cancelling instances are evaluated by the kernel at the end
 of the file (`cancel_instance_*`).
 -/
